@@ -49,6 +49,7 @@ func init() {
 	share("C07", &RuleDoc{Name: "R-UDP-ERROR-NOT-FATAL", Text: "udpConsumer.Consume does not close the consumer on a datagram send error: one oversized packet (legal on TCP, too long for a datagram) must not end delivery of the following good packets.", Run: ruleUdpErrorNotFatal})
 	share("C06", &RuleDoc{Name: "R-WRAP-BOTH-WAYS", Text: "The 32-bit timestamp extension counts a wrap forwards and a step back across the wrap (a reordered or B-frame timestamp from before it): the wrap counter is both incremented and decremented.", Run: ruleWrapBothWays})
 	share("C06", &RuleDoc{Name: "R-MIN-PAYLOAD", Text: "The depacketisers' entry guards refuse only payloads shorter than three bytes: a three-byte unit (the H.265 access-unit delimiter) sent as its own packet is a legal single NAL unit.", Run: ruleMinPayload})
+	share("C03", &RuleDoc{Name: "R-STOP-ON-ATTACHED-STREAM", Text: "A consumer object detaches (StopConsume with its own consumer id) from the stream object it attached to, kept in a field - never from a stream looked up again by path, which after a replacement is a different stream on which the same id may belong to somebody else. (The management API, which stops a consumer chosen by path and id, is the intended exception.)", Run: ruleStopOnAttachedStream})
 	members := &RuleDoc{Name: "R-MEMBERS-TRACKED", Text: "multicastProxy.AddMember records the member on every path on which it returns without having failed to start the proxy - not only for the first member: the proxy stops when the LAST member leaves, and a stream end closes every member's connection.", Run: ruleMembersTracked}
 	share("C03", members)
 	share("C01", members)
@@ -56,6 +57,8 @@ func init() {
 	addMutants(
 		&Mutant{Prop: "C06", Name: "c06-h265-min-payload-four", File: "av/format/rtp/h265_depacketizer.go",
 			Old: "\tpayload := packet.Payload()\n\tif len(payload) < 3 {", New: "\tpayload := packet.Payload()\n\tif len(payload) <= 3 {", Expect: "R-MIN-PAYLOAD"},
+		&Mutant{Prop: "C03", Name: "c03-tcp-consumer-stops-by-path", File: "service/rtsp/session_roles.go",
+			Old: "\tc.closed = true\n\tc.source.StopConsume(c.cid)\n\tc.source = nil\n\treturn nil\n}\n\ntype udpConsumer struct", New: "\tc.closed = true\n\tif st := media.Get(c.path); st != nil {\n\t\tst.StopConsume(c.cid)\n\t}\n\tc.source = nil\n\treturn nil\n}\n\ntype udpConsumer struct", Expect: "R-STOP-ON-ATTACHED-STREAM"},
 		&Mutant{Prop: "C03", Name: "c03-only-first-member-tracked", File: "service/rtsp/multicast_proxy.go",
 			Old: "\t\tproxy.logger.Info(\"multicast proxy started.\")\n\t}\n\n\t// 每个成员都要登记(不仅是第一个)：最后一个成员离开时才停止代理，流结束时关闭全部成员\n\tproxy.members = append(proxy.members, m)\n", New: "\t\tproxy.members = append(proxy.members, m)\n\t\tproxy.logger.Info(\"multicast proxy started.\")\n\t}\n", Expect: "R-MEMBERS-TRACKED"},
 		&Mutant{Prop: "C01", Name: "c01-proxy-stays-closed", File: "service/rtsp/multicast_proxy.go",
@@ -940,4 +943,64 @@ func ruleMembersTracked(c *Ctx) {
 	if ok {
 		c.OK("members-tracked", p.Pos(fn.Pos()), "every non-failing path records the member")
 	}
+}
+
+func ruleStopOnAttachedStream(c *Ctx) {
+	p := c.P
+	stop := p.Func("media", "(*Stream).StopConsume")
+	if stop == nil {
+		c.Lost("media.Stream.StopConsume", "not found")
+		return
+	}
+	n := 0
+	for _, pkg := range []string{"service/rtsp", "service/wsp", "service/flv", "service/hls"} {
+		for _, fn := range p.FuncsInPkg(pkg) {
+			ord := 0
+			instrs(fn, func(ins ssa.Instruction) {
+				cc := callCommon(ins)
+				if cc == nil || cc.StaticCallee() != stop || len(cc.Args) < 2 {
+					return
+				}
+				n++
+				ord++
+				c.touched(fname(fn))
+				key := fmt.Sprintf("stop-on-attached#%d@%s", ord, fname(fn))
+				recv := origin(cc.Args[0])
+				looked := false
+				walkDeps(recv, func(x ssa.Value) bool {
+					if call, ok := x.(*ssa.Call); ok && call.Call.StaticCallee() != nil {
+						nm := call.Call.StaticCallee().Name()
+						if (nm == "Get" || nm == "GetOrCreate") && strings.HasSuffix(funcPkgPath(call.Call.StaticCallee()), "/media") {
+							looked = true
+						}
+					}
+					return true
+				})
+				if !looked {
+					c.OK(key, p.InstrPos(ins), "detaches from the stream object it holds")
+					return
+				}
+				// looked up: fine only if the consumer was started on that very stream value in this function
+				// (one lookup at the top of a handler, used for attach and detach)
+				sameFn := false
+				root := fn
+				for root.Parent() != nil {
+					root = root.Parent()
+				}
+				for _, g := range withAnons(root) {
+					instrs(g, func(i2 ssa.Instruction) {
+						c2 := callCommon(i2)
+						if c2 == nil || c2.StaticCallee() == nil || !strings.HasPrefix(c2.StaticCallee().Name(), "StartConsume") || len(c2.Args) == 0 {
+							return
+						}
+						if origin(c2.Args[0]) == recv {
+							sameFn = true
+						}
+					})
+				}
+				c.Decide(sameFn, key, p.InstrPos(ins), "stops the consumer it started on the stream it looked up in the same function", "StopConsume is called on a stream looked up again by path with a consumer id kept from an earlier attach: after the stream was replaced the lookup returns the NEW stream, where that id belongs to another consumer (per-stream ids start at 1) - an innocent consumer is detached and this one stays attached to the old stream")
+			})
+		}
+	}
+	c.Floor("StopConsume calls in the services", n, 5)
 }
